@@ -6,6 +6,8 @@ pub mod c05;
 pub mod c14;
 pub mod oligo_exec;
 pub mod c06;
+pub mod c07;
+pub mod c08;
 pub mod c09;
 pub mod c18;
 
@@ -109,6 +111,30 @@ pub fn all() -> Vec<PropInfo> {
                read back through SeqFormat::get + get_reader + Sequences and through seq_stats; oracle = the record list itself (round trip); \
                non-trivial = >= 2 records and (wrapped or CRLF or no final newline or an empty record or >= 2 gzip members or a line > 8 KiB); distinct by hash of the case",
         assumptions: &["only well-formed input: unique ids without white space, one space before the description, no blank lines, FASTQ only when every record has >= 1 base (rust-bio rejects empty FASTQ sequences), ASCII sequence bytes"],
+        abort_is_violation: false,
+    },
+    PropInfo {
+        id: "C07",
+        run: c07::run,
+        replay: c07::replay,
+        shards: (8, 16),
+        watchdog: (900, 7200),
+        rule: "inputs (RecGen, low-complexity weighted, all containers) x k 1..=31 x threads 1..=16 x memory ceiling derived from the input so that the run makes about 1,2,3,5,12,30 chunks (partitions follow) x acgt x schedule (free, perturbed, controlled choice vector over the counting worker's schedule points); \
+               kmers.counts parsed and compared as a map with the model multiset of canonical k-mers (no k-mer twice, nothing missing or invented), directory listing after merge(delete) = {kmers.counts}; plus contention stress (identical records, k<=3, 8-16 threads) and bounded-exhaustive schedule enumeration for small inputs; \
+               non-trivial = >= 2 chunks and >= 2 partitions and some k-mer with count >= 2; distinct by hash of the case",
+        assumptions: &["line order of kmers.counts is not compared", "the output directory is created fresh by the harness", "interleavings inside the concurrent map are only stressed, not controlled"],
+        abort_is_violation: false,
+    },
+    PropInfo {
+        id: "C08",
+        run: c08::run,
+        replay: c08::replay,
+        shards: (8, 16),
+        watchdog: (900, 7200),
+        rule: "inputs (RecGen incl. all-empty files and degenerate lengths, all containers) x k 1..=31 x bin size {1..8,16,1000} x bin count {1..8,16} x normalised/raw x optional separate counting input sharing a prefix of the records x threads x memory {input-derived (several counting chunks, flush per record), 0.5, 1, 6 GB} x delimiter; \
+               kmers.vectors must have one row per record in input order, each equal to the model histogram built from the model count table (exact raw, 5e-7 normalised); \
+               non-trivial = >= 2 records and (a window saturates into the last bin or some record has >= 2 non-zero bins); distinct by hash of the case",
+        assumptions: &["'flush per few records' needs > 1 GiB of bases per batch and is not generated", "tolerance 5e-7 + 1e-12 for 6-decimal text"],
         abort_is_violation: false,
     },
     PropInfo {
